@@ -21,6 +21,9 @@ theorem Expr.eval_congr (e : Expr) (env1 env2 : Name → Option Int)
   | pow a k iha =>
     simp only [Expr.eval]
     rw [iha (fun x hx => h x (by simp [Expr.vars, hx]))]
+  | max0 a iha =>
+    simp only [Expr.eval]
+    rw [iha (fun x hx => h x (by simp [Expr.vars, hx]))]
 
 /-- evaluation only fails through a missing variable -/
 theorem Expr.eval_isSome (e : Expr) (env : Name → Option Int) :
@@ -38,6 +41,9 @@ theorem Expr.eval_isSome (e : Expr) (env : Name → Option Int) :
     simp only [Expr.eval, Expr.vars, List.all_append, ← iha, ← ihb]
     cases a.eval env <;> cases b.eval env <;> rfl
   | pow a k iha =>
+    simp only [Expr.eval, Expr.vars, ← iha]
+    cases a.eval env <;> rfl
+  | max0 a iha =>
     simp only [Expr.eval, Expr.vars, ← iha]
     cases a.eval env <;> rfl
 
@@ -464,28 +470,57 @@ theorem toNat_mul_of_nonneg (a b : Int) (h : 0 ≤ a ∨ 0 ≤ b) : (a * b).toNa
       rw [this, Int.toNat_natCast]
       simp
 
-/-- the merged loop repeats `parent * child` times (for counts that are not both negative: clamping of two
-negative raw values happens after the multiplication in the merged definition) -/
-theorem prod_raw (p c : RepDef) (a b : Int) (hp : p.raw = some a) (hc : c.raw = some b) :
-    (p.prod c).raw = some (a * b) := by
+theorem toNat_mul_natCast (v : Int) (k : Nat) : (v * (k : Int)).toNat = v.toNat * k := by
+  have := toNat_mul_of_nonneg v (k : Int) (.inr (by omega))
+  simpa using this
+
+theorem max0_toNat (v : Int) : (if v < 0 then (0 : Int) else v) = (v.toNat : Int) := by
+  split <;> omega
+
+/-- the merged loop repeats parent × child times: `int(merged) = int(parent) * int(child)` in all four cases of
+`_merge_single_child` (the volatile × volatile product clamps both factors, PF-C15d) -/
+theorem prod_counts (p c : RepDef) (a b : Nat) (hp : p.intOf = .ok a) (hc : c.intOf = .ok b) :
+    (p.prod c).intOf = .ok (a * b) := by
   cases p with
   | const n =>
     cases c with
     | const m =>
-      simp [RepDef.raw] at hp hc; subst hp; subst hc
-      simp [RepDef.prod, RepDef.raw]
+      simp [RepDef.intOf] at hp hc; subst hp; subst hc
+      simp [RepDef.prod, RepDef.intOf]
     | vol e s =>
-      simp [RepDef.raw] at hp hc; subst hp
-      simp [RepDef.prod, RepDef.raw, Expr.eval, hc, Int.mul_comm]
+      simp only [RepDef.intOf] at hp hc
+      cases hp
+      cases hev : e.eval s.get with
+      | none => simp [hev] at hc
+      | some v =>
+        simp [hev] at hc
+        simp only [RepDef.prod, RepDef.intOf, Expr.eval, hev, toNat_mul_natCast, hc, Nat.mul_comm]
   | vol e s =>
     cases c with
     | const m =>
-      simp [RepDef.raw] at hp hc; subst hc
-      simp [RepDef.prod, RepDef.raw, Expr.eval, hp]
+      simp only [RepDef.intOf] at hp hc
+      cases hc
+      cases hev : e.eval s.get with
+      | none => simp [hev] at hp
+      | some v =>
+        simp [hev] at hp
+        simp only [RepDef.prod, RepDef.intOf, Expr.eval, hev, toNat_mul_natCast, hp]
     | vol ec sc =>
-      simp only [RepDef.raw] at hp hc
-      have hne : (cn = pn) = False := by simp [pn, cn]
-      simp [RepDef.prod, RepDef.raw, Expr.eval, Scope.get, List.lookup, hp, hc, hne]
+      simp only [RepDef.intOf] at hp hc
+      cases hev : e.eval s.get with
+      | none => simp [hev] at hp
+      | some v =>
+        cases hevc : ec.eval sc.get with
+        | none => simp [hevc] at hc
+        | some w =>
+          simp [hev] at hp
+          simp [hevc] at hc
+          have hne : (cn = pn) = False := by simp [pn, cn]
+          simp only [RepDef.prod, RepDef.intOf, Expr.eval, Scope.get, List.lookup, hne, if_true, if_false, beq_self_eq_true,
+            hev, hevc, max0_toNat]
+          rw [← hp, ← hc]
+          have : ((v.toNat : Int) * (w.toNat : Int)) = ((v.toNat * w.toNat : Nat) : Int) := by simp
+          rw [this, Int.toNat_natCast]
 
 /-! ### marking -/
 
